@@ -507,7 +507,8 @@ def _create_params(parent, argslist_list):
     if first.type in ('name', 'fpdef'):
         return [Param([first], parent)]
     elif first == '*':
-        return [first]
+        # A bare star (possibly already regrouped, e.g. `*` `,`): nothing to do.
+        return argslist_list
     else:  # argslist is a `typedargslist` or a `varargslist`.
         if first.type == 'tfpdef':
             children = [first]
